@@ -170,7 +170,7 @@ def pbox_arrays(spec):
 def gen_cases(ctx):
     rng = ctx.rng
     cases = []
-    cap_cuts = ctx.scale(300, 1600)
+    cap_cuts = ctx.scale(260, 1600)
 
     def rand_input(kind):
         if kind == "I":
@@ -295,8 +295,8 @@ def gen_cases(ctx):
         for e in (lin2, ("mul", ("v", 0), ("v", 1)), ("sub", ("mul", ("c", 3), ("v", 1)), ("v", 0)), ("add", ("v", 0), ("v", 1))):
             add("sequence", seq_inputs, e, ("endpoints", None, None), "slicing", k=3, fstyle=fstyle)
             add("sequence", seq_inputs, e, ("subinterval", "endpoints", 2), "imc", n_sam=5, seed=17, dep=None, fstyle=fstyle)
-    n_s = ctx.scale(44, 350)
-    n_i = ctx.scale(44, 350)
+    n_s = ctx.scale(34, 350)
+    n_i = ctx.scale(34, 350)
     for which, count in (("slicing", n_s), ("imc", n_i)):
         made = 0
         tries = 0
@@ -385,7 +385,11 @@ def run(ctx: core.Check, cases=None):
                 "n_sam in {1..100}, seeds, copulas {default, independence, gaussian, frank, clayton}. One evaluation = one call of "
                 "slicing / interval_monte_carlo (IMC is run twice for reproducibility); all are non-trivial; distinct on the full case. "
                 "Fixed streams: three-inputs, multiplicity, thin (cuts of relative width 1e-9..1e-5 at large offsets, tiny magnitudes), "
-                "representation (int bounds, list parameters), entry-point (MixedPropagation, Propagation), sequence (functions sharing a "
+                "representation (int bounds, list parameters), entry-point (MixedPropagation, Propagation), api-layer (interval Monte Carlo "
+                "through the function, MixedPropagation and Propagation x Dependency built positionally / params= / corr= / theta= / "
+                "t(corr, df) / correlation matrix / independence object / the string / None; the levels must equal u_sample of THAT "
+                "object, of an identically built one, and statsmodels' rvs), the random streams rotate the API layer and the "
+                "construction style, sequence (functions sharing a "
                 "__qualname__). Every focal interval is also compared with exact corner / tile-corner evaluation done without b2b; every "
                 "returned p-box and input object is re-read after all calls.")
     ctx.assumptions = [
@@ -621,6 +625,11 @@ def oracle(ctx, c, o, pv, tol):
             box.append(cache[key])
         bkey = tuple(box)
         if bkey not in cache:
+            n_b2b = cache.get("#b2b", 0)
+            if n_b2b >= ctx.scale(48, 400):     # the real b2b on a sample of the distinct cut boxes; 1b below and the tie cover all
+                exp_focal.append(None)
+                continue
+            cache["#b2b"] = n_b2b + 1
             rr, _ = X.run_b2b(c["e"], box, "L", s, st, n)
             cache[bkey] = rr
         exp_focal.append(cache[bkey])
@@ -647,14 +656,17 @@ def oracle(ctx, c, o, pv, tol):
                      f"focal interval {fc[1:]} of the cut box {box}: exact evaluation at the "
                      f"{'corners / tile corners gives' if kind == 'exact' else 'corners and midpoint reaches'} [{float(lo_i)},{float(hi_i)}]")
             break
-    if any(r[0] != "ok" for r in exp_focal):
-        bad = next(r for r in exp_focal if r[0] != "ok")
+    pairs = [(i, f_, x_) for i, (f_, x_) in enumerate(zip(focal, exp_focal)) if x_ is not None]
+    if any(r[0] != "ok" for _, _, r in pairs):
+        bad = next(r for _, _, r in pairs if r[0] != "ok")
         ctx.fail(feat(c, "b2b-on-cut-raises", bad), cj(c), f"b2b on a box of alpha-cuts raises {bad}")
         return
-    if sorted((f[1], f[2]) for f in focal) != sorted((f[1], f[2]) for f in exp_focal):
-        k = next((i for i, (a, b) in enumerate(zip(focal, exp_focal)) if (a[1], a[2]) != (b[1], b[2])), 0)
-        ctx.fail(feat(c, "focal-not-image-of-cuts"), cj(c, row=list(rows[k]), focal=list(focal[k]), expected=list(exp_focal[k])),
-                 f"focal interval {focal[k][1:]} for levels {rows[k]} is not b2b of the nearest-level alpha-cuts ({exp_focal[k][1:]})")
+    complete = len(pairs) == len(focal)
+    mism = [(i, a, b) for i, a, b in pairs if (a[1], a[2]) != (b[1], b[2])]
+    if mism and (not complete or sorted((f[1], f[2]) for f in focal) != sorted((f[1], f[2]) for f in exp_focal)):
+        k, a, b = mism[0]
+        ctx.fail(feat(c, "focal-not-image-of-cuts"), cj(c, row=list(rows[k]), focal=list(a), expected=list(b)),
+                 f"focal interval {a[1:]} for levels {rows[k]} is not b2b of the nearest-level alpha-cuts ({b[1:]})")
     # 2. slicing: every combination of the k grid levels exactly once
     if c["method"] == "slicing":
         k = c["k"]
@@ -708,7 +720,7 @@ def oracle(ctx, c, o, pv, tol):
               if _confirm_not_reproducible(ctx, c, True):
                 ctx.fail(feat(c, "not-reproducible-same-object"), cj(c, diag=_repro_diag(o, o4, left, right, lv)),
                          "a second interval Monte Carlo run with the same seed on the SAME Dependency object gives a different p-box")
-        if c["n_sam"] >= 5 and d >= 1:
+        if c["n_sam"] >= 5 and (c["seed"] % 2 == 0 or c["n_sam"] <= 15):
             o3 = run_mixed(c, seed_override=c["seed"] + 1)
             if o3["levels"] is not None and lv is not None and np.array_equal(o3["levels"], lv):
                 ctx.fail(feat(c, "seed-ignored"), cj(c), "a different seed gives the same probability levels")
